@@ -153,3 +153,12 @@ def cache_completeness(ctx):
               expected='__init__ fills the cache through _refresh (one code path)')
     for need in ('_chromsizes', '_chromids', '_info', '_is_symm_upper'):
         ctx.check(need in assigned, R, need, ctx.where(fresh), found=sorted(assigned), expected=f'{need} recomputed')
+
+
+_run_core = run
+
+
+def run(ctx):
+    _run_core(ctx)
+    from . import refs_misc
+    refs_misc.run_for(ctx, 'C18')
